@@ -127,6 +127,28 @@ def sensitivity(pid):
     return out
 
 
+def replay_kani_playback(test_source):
+    """run Kani's concrete-playback unit test natively against /repo's current tree; returns (reproduced, tail)"""
+    import shutil, tempfile
+    os.makedirs(os.path.join(VERIF, ".work"), exist_ok=True)
+    scratch = tempfile.mkdtemp(prefix="replay-", dir=os.path.join(VERIF, ".work"))
+    try:
+        shutil.copytree(os.path.join(VERIF, "kani"), os.path.join(scratch, "kani"), ignore=shutil.ignore_patterns("target"))
+        lib = os.path.join(scratch, "kani", "src", "lib.rs")
+        src = open(lib).read().rstrip()
+        i = src.rfind("}")
+        open(lib, "w").write(src[:i] + "\n" + open(test_source).read() + "\n}\n")
+        r = subprocess.run(["cargo", "kani", "playback", "-Z", "concrete-playback", "--", "kani_concrete_playback"], cwd=os.path.join(scratch, "kani"),
+                           env=dict(os.environ, CARGO_NET_OFFLINE="true", RUSTFLAGS="--cfg miri", CARGO_TARGET_DIR=os.path.join(VERIF, ".cache", "kani-target-playback")),
+                           stdout=subprocess.PIPE, stderr=subprocess.STDOUT, text=True, timeout=1800)
+        m = re.search(r"test \S*kani_concrete_playback\S* \.\.\. (FAILED|ok)", r.stdout)
+        reproduced = bool(m and m.group(1) == "FAILED")
+        tail = "\n".join(l for l in r.stdout.split("\n") if len(l) < 400)[-1500:]
+        return reproduced, tail
+    finally:
+        shutil.rmtree(scratch, ignore_errors=True)
+
+
 def write_kani_replay(pid, kr):
     os.makedirs(os.path.join(VERIF, "replays"), exist_ok=True)
     path = os.path.join(VERIF, "replays", "%s-kani-%s-%s.json" % (pid, kr["harness"], tree_hash()))
@@ -143,6 +165,8 @@ def write_kani_replay(pid, kr):
             d["failing_input"] = m.group(1)
             open(path[:-5] + ".playback.rs", "w").write(m.group(1))
             d["native_test_source"] = path[:-5] + ".playback.rs"
+            ok, tail = replay_kani_playback(d["native_test_source"])
+            d["native_replay"] = {"reproduced_on_real_code": ok, "output_tail": tail[-600:]}
     except Exception as e:  # noqa
         d["playback_error"] = str(e)[:200]
     json.dump(d, open(path, "w"), indent=1)
@@ -166,8 +190,12 @@ def main():
         d = json.load(open(a.replay))
         print("replay of %s: obligation %s in %s (%s)" % (d["property"], d["failed_obligation"], d["function"], d["source"]))
         print(d["verifier_output"])
-        if d.get("native_test"):
-            sys.exit(subprocess.call(d["native_test"], shell=True))
+        if d.get("native_test_source") and os.path.exists(d["native_test_source"]):
+            ok, tail = replay_kani_playback(d["native_test_source"])
+            print(tail)
+            print("replay: the counterexample %s on the current tree" % ("FAILS (violation reproduced)" if ok else "passes"))
+            sys.exit(1 if ok else 0)
+        sys.exit(0)
     cfg = propcfg.PROPS.get(pid)
     if cfg is None:
         print("unknown or not-applicable property %s" % pid)
@@ -179,6 +207,11 @@ def main():
     stability = None
     sens = None
     kani_results = {}
+    if a.tier == "quick" and not res.get("undecided") and os.environ.get("VERIF_QUICK_KANI", "1") != "0":
+        # the few bounded harnesses that finish in seconds also run on every change (value-level code Verus cannot reach)
+        names = [h["name"] for h in kani_run.registry()["harnesses"] if pid in h["props"] and h.get("quick")]
+        if names:
+            kani_results = kani_run.run(names, repo=REPO, jobs=min(4, len(names)), timeout_min=5)
     if a.tier == "thorough" and not res.get("undecided"):
         # solver stability: the same file under three other Z3 seeds; a clause that flips is undischarged
         stability = []
@@ -338,7 +371,7 @@ def main():
         "bounded_kani": ({"config": kani_run.registry()["config"], "prefix": kani_run.registry()["prefix"],
                           "harnesses": [dict(kr, **{k: v for k, v in next(h for h in kani_run.registry()["harnesses"] if h["name"] == n).items() if k in ("unwind", "symbolic", "claim", "props")})
                                         for n, kr in kani_results.items()]}
-                         if a.tier == "thorough" else
+                         if (a.tier == "thorough" or kani_results) else
                          {"not_run": "bounded Kani harnesses run in the thorough tier only",
                           "harnesses_for_this_property": [h["name"] for h in kani_run.registry()["harnesses"] if pid in h["props"]]}),
     }
@@ -368,7 +401,7 @@ def main():
         sys.exit(1)
     if kani_viol:
         sys.exit(1)
-    if a.tier == "thorough":
+    if a.tier == "thorough" or kani_results:
         print("bounded (Kani): %d harness(es) ok%s" % (sum(1 for kr in kani_results.values() if kr["status"] == "ok"),
               ("; inconclusive: " + ", ".join(kani_inconclusive)) if kani_inconclusive else ""))
     print("OK property=%s tier=%s: %d labelled clauses, %d/%d verification conditions discharged in %d functions (%s), %.1fs" % (
